@@ -108,9 +108,13 @@ def from_array(freq, nv, start, a, desc=""):
 class Exp:
     """Expected value of a receiver/result after an operation."""
 
-    __slots__ = ("freq", "nv", "cells", "tight", "desc", "tol")
+    __slots__ = ("freq", "nv", "cells", "tight", "desc", "tol", "scale")
 
-    def __init__(self, freq, nv, cells, tight=False, desc=None, tol=0.0):
+    def __init__(self, freq, nv, cells, tight=False, desc=None, tol=0.0, scale=0.0):
+        # scale: magnitude of the inputs a reduction ran over.  Sums, means, interpolations and recurrences lose absolute
+        # accuracy in proportion to the largest operand (cancellation), whatever the order of summation; their results are
+        # compared to within tol * scale on top of the relative tolerance
+        self.scale = scale
         self.freq = freq
         self.nv = nv
         self.cells = {}
@@ -273,19 +277,39 @@ def t_underlay(m: SM, o: SM) -> Exp:
     return Exp(m.freq or o.freq, nv, cells, tight=True)
 
 
-def t_rowwise(m: SM, func, nv=None, tol=0.0) -> Exp:
+def magnitude(*ms) -> float:
+    """largest finite |value| held by the given models (0.0 when there is none)"""
+    out = 0.0
+    for m in ms:
+        for v in m.cells.values():
+            f = np.abs(v[np.isfinite(v)])
+            if f.size:
+                out = max(out, float(f.max()))
+    return out
+
+
+def t_rowwise(m: SM, func, nv=None, tol=0.0, scale=0.0) -> Exp:
     """func: (n, nv) array over the reported rows -> (n, nv') array"""
     if m.lo is None:
         return Exp(m.freq, m.nv if nv is None else nv, {}, tol=tol)
     a = func(m.own())
     a = np.asarray(a, dtype=float)
     nv = m.nv if nv is None else nv
-    return _from_rows(m, m.lo, a.reshape(m.n, nv), nv=nv, tol=tol)
+    return _from_rows(m, m.lo, a.reshape(m.n, nv), nv=nv, tol=tol, scale=scale)
+
+
+def reduction_scale(m: SM, name: str) -> float:
+    g = magnitude(m)
+    if "var" in name:
+        return g * g * max(m.nv, 1)
+    if "prod" in name:
+        return 0.0          # products lose relative accuracy only
+    return g * max(m.nv, 1)
 
 
 def t_stat(m: SM, name: str, *args) -> Exp:
     f = getattr(np, name)
-    return t_rowwise(m, lambda a: f(a, *args, axis=1).reshape(-1, 1), nv=1, tol=1e-9)
+    return t_rowwise(m, lambda a: f(a, *args, axis=1).reshape(-1, 1), nv=1, tol=1e-9, scale=reduction_scale(m, name))
 
 
 GENERIC_WINDOW_FUNCS = {"max": np.max, "min": np.min, "nansum": np.nansum, "std": np.std, "ptp": np.ptp}
@@ -307,7 +331,7 @@ def t_moving(m: SM, name: str, window) -> Exp:
         pad = np.full((w - 1, m.nv), np.nan)
         b = np.vstack([pad, a])
         return np.array([f(b[i:i + w], axis=0) for i in range(a.shape[0])]).reshape(a.shape[0], m.nv)
-    return t_rowwise(m, func, tol=1e-9)
+    return t_rowwise(m, func, tol=1e-9, scale=reduction_scale(m, name) * max(w, 1))
 
 
 def fill_column(col, method, const=None, src=None):
@@ -365,7 +389,7 @@ def t_fill(m: SM, method: str, const, src: SM | None, a, b) -> Exp:
     ]) if block.shape[0] else block
     for i in range(block.shape[0]):
         cells[a + i] = new[i]
-    return Exp(m.freq, m.nv, cells, tight=True, tol=1e-9)
+    return Exp(m.freq, m.nv, cells, tight=True, tol=1e-9, scale=magnitude(m) if method in ("linear", "log_linear") else 0.0)
 
 
 def t_extrapolate(m: SM, coeffs, a, n, intercept, log) -> Exp:
@@ -385,7 +409,7 @@ def t_extrapolate(m: SM, coeffs, a, n, intercept, log) -> Exp:
             row = row.copy()
             row[v] = np.exp(hist[t]) if log else hist[t]
             cells[t] = row
-    return Exp(m.freq, m.nv, cells, tight=True, tol=1e-8)
+    return Exp(m.freq, m.nv, cells, tight=True, tol=1e-8, scale=0.0 if log else (magnitude(m) + abs(intercept)) * max(len(coeffs), 1))
 
 
 def t_nvar(m: SM, new_num: int) -> Exp:
@@ -448,7 +472,7 @@ def t_cum(m: SM, name: str, k: int, initial, a=None, b=None) -> Exp:
             y[t] = np.full(m.nv, init)
         for t in range(a, b + 1):
             y[t] = f(y.get(t - k, np.full(m.nv, np.nan)), m.get(t))
-    return Exp(m.freq, m.nv, y, tol=1e-9)
+    return Exp(m.freq, m.nv, y, tol=1e-9, scale=(magnitude(m) + abs(init)) * max(m.n, 1) if name == "cum_diff" else 0.0)
 
 
 def t_redate(m: SM, new_start: int) -> Exp:
